@@ -1,0 +1,22 @@
+//go:build verif
+
+package exec
+
+import (
+	r "github.com/DemoHn/Zn/pkg/runtime"
+	"github.com/DemoHn/Zn/pkg/syntax"
+)
+
+// VerifUnwrap exposes what the error wrappers returned by Interpreter.Execute
+// carry, so that a verification harness can compare errors structurally
+// (class and code) instead of parsing their rendered text.
+// Only compiled with the build tag "verif".
+func VerifUnwrap(err error) (inner error, vm *r.VM, parser *syntax.Parser, moduleName string) {
+	switch w := err.(type) {
+	case *RuntimeErrorWrapper:
+		return w.err, w.vm, nil, ""
+	case *SyntaxErrorWrapper:
+		return w.err, nil, w.parser, w.moduleName
+	}
+	return err, nil, nil, ""
+}
